@@ -73,6 +73,7 @@ func (c *Conn) CloseWithError(errCode network.ConnErrorCode) error {
 
 func (c *Conn) doClose(errCode network.ConnErrorCode) {
 	c.swarm.removeConn(c)
+	verifYield("doClose:removed")
 
 	// Prevent new streams from opening.
 	c.streams.Lock()
